@@ -50,7 +50,7 @@ PANEL_TRANSFORMERS = {
     "DerivativeSlopeTransformer": {}, "PlateauFinder": {"value": [0.0, "default", "default"]},
     "RandomIntervalFeatureExtractor": {"n_intervals": [2, "sqrt", "random"]},
     "TruncationTransformer": {"lower": [None, None, 8, 12]},
-    "MatrixProfile": {"m": [4]}, "SFA": {"word_length": [4], "window_size": [8]},
+    "MatrixProfile": {"m": [4]}, "SFA": {"word_length": [4], "window_size": [8], "anova": [False, True]},
     # (no Parallel inside: only the input-mutation, repeat-call and pickle clauses bite here)
     "Rocket": {"num_kernels": [20, 50], "normalise": [True, True, False]},
     "MiniRocket": {"num_features": [84]},
